@@ -23,6 +23,7 @@ RULE = (
     "{utf-8,cp1252,cp932,cp949} x size {1,5,40 properties; 0-3 charts}; each evaluation is one (base configuration, "
     "fault) run. Non-trivial = every fault run (a fault-free control run per configuration is trivial); distinct by "
     "(configuration, fault)."
+    ' Round 5: bad objects also as property key, chart key, extra component and note data.'
 )
 EXHAUSTIVE_PART = "per base configuration: all fault points of the classes body-exception, unserializable, unencodable, k-th filesystem call and LINE failpoints in the loading half and in the save sequence"
 ASSUMPTIONS = ["faults occur only at the enumerated points", "MemoryFS/NativeOSFS subclasses behave like their parents"]
